@@ -45,6 +45,20 @@ func c13Wrap(role string, text string) string {
 	return fmt.Sprintf(`{"items":[{"type":"message","role":"user","content":"ignored"},{"type":"message","role":%q,"content":%s}]}`, role, c)
 }
 
+var c13PadCache = map[int]string{}
+
+func c13Pad(n int) string {
+	if n < 0 {
+		n = 0
+	}
+	if p, ok := c13PadCache[n]; ok {
+		return p
+	}
+	p := strings.Repeat(" ", n)
+	c13PadCache[n] = p
+	return p
+}
+
 type c13BadReader struct{ n int }
 
 func (b *c13BadReader) Read(p []byte) (int, error) {
@@ -144,6 +158,16 @@ func c13Alphabet() []c13Letter {
 				t = goodS
 			}
 			return c13Resp(200, c13Wrap("assistant", t)+" }")
+		}},
+		// a complete passing envelope, whitespace up to the documented response-size limit, and
+		// something else beyond it: what lies past the limit must not be silently cut off
+		{name: "body-good-padded-to-the-limit-then-garbage", build: func(s bool) (*http.Response, error) {
+			t := goodM
+			if s {
+				t = goodS
+			}
+			w := c13Wrap("assistant", t)
+			return c13Resp(200, w+c13Pad(5*1024*1024-len(w))+"<html>not json at all</html>{")
 		}},
 		{name: "body-good-then-second-envelope", build: func(s bool) (*http.Response, error) {
 			t := goodM
